@@ -354,6 +354,19 @@ func genGraph(t *rapid.T, mode string, cfg GenCfg) *Spec {
 			b.Stream = pct(t, 40, "streamBranch")
 		}
 		sp.Branches = append(sp.Branches, b)
+		if mode == "pregel" && pct(t, 15, "edgeBesideBranch") {
+			// an edge to one of the branch's own targets: that successor receives the value whatever the branch decides
+			to := pick(t, ts, "edgeBesideBranchTo")
+			plain := false
+			for _, e := range sp.Edges {
+				if e.From == from && e.To == to {
+					plain = true
+				}
+			}
+			if !plain {
+				sp.Edges = append(sp.Edges, Edge{From: from, To: to})
+			}
+		}
 		if pct(t, 20, "secondBranch") {
 			// a second branch of the same node over the same targets: a target is skipped only when no
 			// branch selects it
